@@ -13,7 +13,7 @@ int vprop_cpu_limit_s = 30;
 const char *vprop_class_names[V_NCLASS] = {
   "unmutated", "token_deleted", "token_duplicated", "directive_before_function", "many_tokens", "over_100_insns",
   "over_limit_vars", "unknown_opcode", "bad_number", "no_final_newline", "crlf", "long_line", "line_deleted", "two_functions",
-  "garbage_bytes", NULL
+  "garbage_bytes", "exact_single_bad_line", NULL
 };
 
 void vprop_init (int argc, char **argv) { (void) argc; (void) argv; orc_init (); }
@@ -69,6 +69,37 @@ void vprop_case (VChoices *c, VResult *r)
     r->classes |= 1u << 13;
   }
   split_lines (text);
+
+  /* exact mode (one case in four): a well-formed file plus exactly ONE line that must be rejected without changing the parser's
+     state, LF or CRLF endings, with or without a final newline: every error record must carry exactly that line's number */
+  if (vc_pick (c, 4) == 0 && nlines > 0) {
+    static const char *bad1[] = { "frobnicate d1, s1", ".frobnicate 1 2", "addbb d1, s1, s2", "x8 addb d1, s1, s2", "nosuchop" };
+    int at = 1 + (int) vc_pick (c, (uint32_t) nlines), k, want;
+    int use_crlf = (int) vc_pick (c, 2), fnl = (int) vc_pick (c, 2);
+    extern int c14_last_error_lines[8];
+    insert_line (at, (char *) bad1[vc_pick (c, 5)]);
+    want = at + 1;
+    len = 0;
+    for (i = 0; i < nlines && len + 4200 < sizeof out; i++)
+      len += (size_t) snprintf (out + len, sizeof out - len, "%s%s", lines[i], (i == nlines - 1 && !fnl) ? "" : use_crlf ? "\r\n" : "\n");
+    out[len] = 0;
+    v_desc (r, "%.*s", V_DESC_MAX - 300, out);
+    v_desc (r, "\n# exact mode: line %d is the only bad line (%s, %s final newline)\n", want, use_crlf ? "CRLF" : "LF", fnl ? "with" : "no");
+    r->classes |= 1u << 15;
+    if (!fnl) r->classes |= 1u << 9;
+    if (use_crlf) r->classes |= 1u << 10;
+    r->hash = v_hash_bytes (0x15, out, len);
+    r->nontrivial = 1;
+    v_stage (r, "parse (exact line oracle)");
+    c14_check_text (out);
+    if (c14_last_n_errors == 0) { v_fail (r, "exact:not-reported", "line %d cannot be parsed but no error record was returned", want); return; }
+    for (k = 0; k < c14_last_n_errors && k < 8; k++)
+      if (c14_last_error_lines[k] != want) {
+        v_fail (r, "exact:wrong-line-number", "the only bad line is line %d but error record %d carries line number %d", want, k, c14_last_error_lines[k]);
+        return;
+      }
+    return;
+  }
 
   nmut = (int) vc_pick (c, 5);
   if (nmut == 0) r->classes |= 1u << 0;
